@@ -536,25 +536,18 @@ Definition violated_rule_names (j : job_view) : list string :=
   flat_map (fun r => if holds (r_cond r) j then [] else [r_name r]) (all_rules j).
 
 (* ---- known documentation-vs-code discrepancies (see C12_NOTES.md, section "Discrepancies") ----
-   A job is OUTSIDE them when none of D1..D4,D6,D8 applies; validate_sound is proved for such jobs
+   A job is OUTSIDE them when none of D2,D3,D8 applies; validate_sound is proved for such jobs
    and refuted by a witness for each discrepancy. *)
-Definition disc_D1_chacha_pairing (j : job_view) : bool :=
-  ((jv_cipher_mode j =? IMB_CIPHER_CHACHA20_POLY1305) && negb (jv_hash_alg j =? IMB_AUTH_CHACHA20_POLY1305)) ||
-  ((jv_cipher_mode j =? IMB_CIPHER_CHACHA20_POLY1305_SGL) && negb (jv_hash_alg j =? IMB_AUTH_CHACHA20_POLY1305_SGL)).
+(* D1 (CHACHA20_POLY1305(_SGL) accepted with any hash algorithm) was repaired in /repo by abc1c04. *)
 Definition disc_D2_key_len_truncated (j : job_view) : bool := 4294967296 <=? jv_key_len_in_bytes j.
 Definition disc_D3_sgl_total_wraps (j : job_view) : bool :=
   uses_sgl_array j && (18446744073709551616 <=? sgl_total (jv_sgl_segs j)).
-Definition disc_D4_cbcs_key_len (j : job_view) : bool :=
-  (jv_cipher_mode j =? IMB_CIPHER_CBCS_1_9) && negb (jv_key_len_in_bytes j =? 16).
-Definition disc_D6_sm4_key_len (j : job_view) : bool :=
-  ((jv_cipher_mode j =? IMB_CIPHER_SM4_ECB) || (jv_cipher_mode j =? IMB_CIPHER_SM4_CBC)) &&
-  negb (jv_key_len_in_bytes j =? 16).
+(* D4 (CBCS_1_9 with 24/32-byte keys) and D6 (SM4-ECB/CBC key length unchecked) were repaired in /repo
+   by 84bae2a and 6544d54: they are no longer excluded, the theorems cover them. *)
 Definition disc_D8_docsis_offset_wraps (j : job_view) : bool :=
   (jv_hash_alg j =? IMB_AUTH_DOCSIS_CRC32) && (18446744073709551616 <=? jv_hash_start_src_offset j + 12).
 Definition outside_known_discrepancies (j : job_view) : bool :=
-  negb (disc_D1_chacha_pairing j) && negb (disc_D2_key_len_truncated j) && negb (disc_D3_sgl_total_wraps j) &&
-  negb (disc_D4_cbcs_key_len j) && negb (disc_D6_sm4_key_len j) && negb (disc_D8_docsis_offset_wraps j).
+  negb (disc_D2_key_len_truncated j) && negb (disc_D3_sgl_total_wraps j) && negb (disc_D8_docsis_offset_wraps j).
 Definition discrepancy_flags (j : job_view) : list N :=
-  (if disc_D1_chacha_pairing j then [1] else []) ++ (if disc_D2_key_len_truncated j then [2] else []) ++
-  (if disc_D3_sgl_total_wraps j then [3] else []) ++ (if disc_D4_cbcs_key_len j then [4] else []) ++
-  (if disc_D6_sm4_key_len j then [6] else []) ++ (if disc_D8_docsis_offset_wraps j then [8] else []).
+  (if disc_D2_key_len_truncated j then [2] else []) ++
+  (if disc_D3_sgl_total_wraps j then [3] else []) ++ (if disc_D8_docsis_offset_wraps j then [8] else []).
